@@ -170,7 +170,7 @@ def run(tier, seed):
         attack_behs.append(beh)
     pool.shutdown()
     cov["attack_traces"] = len(attack_behs)
-    allb = _slim(behs + attack_behs)
+    allb = _slim(attack_behs + behs)
     inp = os.path.join(wd, "behaviours.ndjson")
     vlib.write_ndjson(inp, allb)
     outp = os.path.join(wd, "replay_result.json")
@@ -198,7 +198,9 @@ def run(tier, seed):
     diverged_behs = len(set(d["behaviour"] for d in res["divergences"])) if res["counters"].get("divergences", 0) else 0
     coverage = {
         "states": states, "transitions": transitions,
-        "traces_validated_against_impl": max(0, res["behaviours"] - len(attack_behs) - max(diverged_behs, min(res["counters"].get("divergences", 0), res["behaviours"]))),
+        "traces_validated_against_impl": max(0, res["behaviours"] - len(attack_behs) - res["counters"].get("aborted_schedules", 0)
+                                             - res["counters"].get("abandoned_client_hang_after_cut", 0)
+                                             - max(diverged_behs, min(res["counters"].get("divergences", 0), res["behaviours"]))),
         "samples": res["samples"][:2] + ress["samples"][:1],
         "evaluations": res["steps"] + ress["steps"] + resk["behaviours"],
         "distinct_nontrivial": res["nontrivial"] + ress["nontrivial"],
